@@ -710,6 +710,7 @@ def write_evidence(prop, tier, seed, records, complete, bounded, canaries, n_obl
         'property_id': prop, 'tier': tier, 'seed': seed, 'level': level,
         'coverage': {
             'obligations': n_obl, 'discharged': n_dis,
+            'own_assertions_in_complete_units': sum(r.get('own_assertions', 0) or 0 for r in complete),
             'obligation_units_complete': len(complete),
             'obligation_units_discharged': sum(1 for r in complete if r['status'] == 'discharged'),
             'counting_rule': 'obligations = CBMC checks (assertions, postconditions, panic/overflow/bounds checks) of harnesses that are '
